@@ -20,7 +20,9 @@ def modeOf (c : Case) : Mode :=
 
 /-- routes that ignore the requested mode -/
 def routeMode (route : String) (m : Mode) : Mode :=
-  if route == "literal" || route == "validated" then .assumeValid else m
+  if route == "literal" || route == "validated" || route == "validated_c8" || route == "literal_c8" then .assumeValid
+  else if route.startsWith "plus" then .checkValidity
+  else m
 
 def showO (w : Nat) (o : Outcome (List Nat)) : String := fmtOutcome (fmtUnits w) o
 
@@ -36,6 +38,8 @@ def evalCase (kind srcS dstS route : String) (m : Mode) (sub : Bool) (input : Op
       (convert src dst m sub input, Unicode.reference src dst m sub xs, Unicode.wellFormedByDesign src xs)
   else if kind == "from" then
     let m := routeMode route m
+    -- character concatenation widens every unit on its own: UTF-16 units are read as scalars, not as surrogate pairs
+    let src := if route.startsWith "plus" && src == .utf16 then .utf32 else src
     if src == .utf8 then (stringFrom .utf8 m input, Unicode.referenceString m xs, Unicode.wellFormedByDesign .utf8 xs)
     else (stringFrom src m input, Unicode.reference src .utf8 m true xs, Unicode.wellFormedByDesign src xs)
   else
